@@ -28,6 +28,10 @@ EVENTS = ("Events", ['0 = E "section a"', '60 = E "lyric b"'])
 UNIVERSE = ("ExpertSingle", "HardSingle", "ExpertDoubleBass", "EasyDrums", "HardDrums", "ExpertDrums", "MediumGHLCoop", "EasyKeyboard")
 ABSENT = ("KEYS", "MEDIUM")
 
+# invalid bodies whose rejection must not depend on what ELSE is in the file: the second steps back across the
+# tempo change at tick 50 to ticks that other sections / tracks look up themselves (0: TS and section; 1: a note)
+INVALID = (["0 = N 0 0", "0 = N 5 0"], ["60 = E a", "0 = E b"], ["70 = N 1 0", "1 = N 2 0"], ["60 = S 2 1", "45 = S 2 1"])
+
 REPLACEMENTS = (
     ("valid", ["1 = N 4 2", "70 = N 3 0", "70 = N 5 0"], True),
     ("empty", [], True),
@@ -109,6 +113,22 @@ def run_shard(shard, ctx):
                 ctx.case((text, tuple(map(tuple, sel)), rname), sample=lambda: dict(replaced=UNIVERSE[j], by=rname, selection=sel))
                 ctx.evaluations += 1
                 e1.check_outcome(ctx, "non-interference", text, [exp], "file", sel, "section [%s] replaced by %s body but not selected (selection %r)" % (UNIVERSE[j], rname, sel))
+            # (3) an invalid section that IS parsed: its outcome must be the same whatever else is in the file,
+            # in whatever order, under whatever selection that includes it
+            if not valid and rname == "forced-first":
+                for ibody in INVALID:
+                    alone = "".join(section(n, b) for n, b in [SONG, SYNC, EVENTS, (UNIVERSE[j], ibody)])
+                    ref = impl.model_outcome(alone, "file", [pairs[j]], (), "full")
+                    with_others = text_for(fm, U, {j: ibody})
+                    moved = "".join(section(n, b) for n, b in [SONG, SYNC, (UNIVERSE[j], ibody)] + [(UNIVERSE[k], body(k)) for k in range(U) if k != j] + [EVENTS])
+                    for t2, where in ((with_others, "among the other sections"), (moved, "before the other track sections")):
+                        for sel in (None, pairs, [pairs[j]], [pairs[j]] + others[:2]):
+                            got = impl.model_outcome(t2, "file", sel, (), "full")
+                            ctx.case((t2, "invalid", None if sel is None else tuple(map(tuple, sel))))
+                            ctx.evaluations += 1
+                            same = got[0] == ref[0] and (got[0] == "err" and got[1] == ref[1] or got[0] == "ok" and got[1]["tracks"].get(me) == ref[1]["tracks"].get(me))
+                            if not same:
+                                ctx.violation("non-interference", dict(text=t2, want=sel, kind="invalid", alone=alone, me=me, mypair=pairs[j]), "section [%s] with body %r is %s when it is the only track section, but %s %s under selection %r: another section decides its outcome" % (UNIVERSE[j], ibody, "rejected (%s)" % ref[1] if ref[0] == "err" else "parsed", "rejected (%s)" % got[1] if got[0] == "err" else "parsed", where, sel), expected=ref[:2] if ref[0] == "err" else "parsed", observed=got[:2] if got[0] == "err" else "parsed")
             # (2) selected / unrestricted with a valid replacement: every other track identical
             if valid:
                 for sel in (None, pairs, [pairs[j]] + others[:1]):
@@ -123,6 +143,12 @@ def run_shard(shard, ctx):
 
 
 def replay(case):
+    if case.get("kind") == "invalid":
+        ref = impl.model_outcome(case["alone"], "file", [case["mypair"]], (), "full")
+        got = impl.model_outcome(case["text"], "file", case["want"], (), "full")
+        me = case["me"]
+        same = got[0] == ref[0] and (got[0] == "err" and got[1] == ref[1] or got[0] == "ok" and got[1]["tracks"].get(me) == ref[1]["tracks"].get(me))
+        return [] if same else [dict(key="non-interference", msg="still differs", case=case)]
     if case.get("kind") == "others":
         exp = impl.model_outcome(case["base"], "file", case["want"], (), "full")
         got = impl.model_outcome(case["text"], "file", case["want"], (), "full")
